@@ -113,6 +113,28 @@ CHECKS = {
 }
 
 NOT_YET = {}
+# additions made after the seeded-change rounds (DESIGN.md 11.6)
+EXTRA = {
+ "C01": "Program families also cover: index assignment through local and captured variables, spread into variadic callees, growth of empty slices of immutable arrays, function literals inside loops, limit programs (operands beyond one / two bytes, code beyond 64 KiB, constant pools with duplicates beyond 256 entries), compound assignments on every target kind.",
+ "C02": "Also: the limits family (operands beyond one / two bytes, 256 captured variables, code beyond 64 KiB), the consts family (constant references after de-duplication incl. host-object modules), compound-assignment tails, function literals with loops inside loops.",
+ "C03": "Also: dead-code shapes inside a function that contains a longer nested literal, short-circuit / conditional returns with an undefined operand, and the limits family through the optimiser's decode / re-encode.",
+ "C04": "Also: CR in the hostile byte alphabet, limit programs around the parser's 10-error bailout (scanner and parser errors), code beyond 64 KiB with and without dead code, custom import values after de-duplicated constants.",
+ "C05": "Also: after a FAILED run the same object is given benign inputs and compared with a freshly compiled object; slices taken before the array is shrunk.",
+ "C06": "Also: recursion through distinct function objects with one slot per frame (frame limit), and the same VM run repeatedly at the threshold budget.",
+ "C07": "Drivers: hand-written ones (loops, tail recursion, nested / closure / module loops, loops made of unconditional jumps only, native calls, run-time errors, panicking host functions) plus a generated grid of 8 loop forms x 10 bodies (diagonal in quick, all 80 in thorough), each also with an observer thread; a step that never reaches another scheduling point is reported as a hang.",
+ "C08": "sync.Pool (the printer pool behind format()) is a scheduling point too (vsched.Pool); clone scripts also call format(), fail inside a source module, and install their own instance of a builtin module with a mutable attribute; read-lock sections are not ordered with each other in the happens-before model.",
+ "C09": "Also: spread into variadic callees, empty slices followed by growth, literals with a non-last mutable child.",
+ "C12": "Also: host modules whose value is a bare singleton / scalar / error / bytes / time / unnamed table, file-import programs (error texts with file names through Encode/Decode), idempotence (de-duplicate twice, second Encode/Decode), the limits family (constant pools beyond 256 entries with duplicates).",
+ "C13": "Also: modules that export before they import, containers exported through every expression form, isolation places as the product importer x variable location x import location, module names with escapes, freshness of modules with a self-referencing top-level closure.",
+ "C14": "Also: a host-error grid (33 error shapes x 14 routes into the VM x Run/RunContext), engine sentinels as kinds x sites, recursive / mutually recursive failing programs, and the same failure reported again by a clone.",
+ "C16": "Also: the function first called with 1021 / 1022 frames in use, locals live across the call, removed dead code before the tail call, one-instruction wrappers between call and return, sibling closure instances.",
+ "C17": "Also: '*' operands beyond the 68-byte scratch buffer, flag subsets in both orders.",
+ "C19": "Also: a sequential exact-fit phase: with tengo.MaxStringLen set to the length of the Go result the function must still return it.",
+ "C20": "Also: statements that Go's parser accepts must be accepted; blank identifiers in for-in forms; escape digits around the surrogate range.",
+}
+for _k, _v in EXTRA.items():
+    CHECKS[_k]["text"] += " " + _v
+
 
 def main():
     checks = []
